@@ -25,9 +25,9 @@ import (
 // tip. Per-height dumps must equal the reference.
 
 type c09Plan struct {
-	Single []uint32 `json:"single"` // restart heights tried one at a time (empty = all)
-	Window int      `json:"window"` // blocks synced after a single restart (0 = to the tip)
-	Sets   [][]uint32 `json:"sets"` // restart sets executed sequentially
+	Single []uint32   `json:"single"` // restart heights tried one at a time (empty = all)
+	Window int        `json:"window"` // blocks synced after a single restart (0 = to the tip)
+	Sets   [][]uint32 `json:"sets"`   // restart sets executed sequentially
 }
 
 type checkC09 struct{}
